@@ -121,6 +121,8 @@ func runJob(job *Job) (res *JobResult) {
 	start := time.Now()
 	res = &JobResult{Job: job, FeasibleIDs: map[string]bool{}}
 	st := smt.NewStore()
+	st.RemSplit = true
+	st.Narrow = os.Getenv("VERIF_NONARROW") == ""
 	tmo := job.Spec.SolverTimeoutMs
 	if tmo == 0 {
 		tmo = 120_000
